@@ -75,9 +75,9 @@ Proof.
   destruct (String.eqb m captain_id).
   - destruct (wedged S c) eqn:Ew.
     + intros [= <- <- <-]. exact Ew.
-    + destruct (as_crew_op S decode_src msg) as [| |op]; try discriminate.
+    + destruct (as_crew_op S decode_src msg) as [| |op0]; try discriminate.
       * intros [= <- <- <-]. exact Ew.
-      * destruct (op_ordinary S op); try discriminate.
+      * set (op := strip_op S op0) in *; destruct (op_ordinary S op); try discriminate.
         intros [= <- <- <-]. rewrite do_op_wedged. exact Ew.
   - destruct (String.eqb m timers_id).
     + intros [= <- <- <-]. destruct (tm_shape msg); reflexivity.
